@@ -1,6 +1,8 @@
 package main
 
 import (
+	"fmt"
+	"gvh/internal/sx"
 	"strings"
 
 	"gvh/internal/rng"
@@ -67,7 +69,10 @@ func init() {
 		if e.thorough {
 			b, per = 10*e.scale, 50
 		}
-		return runFamilies(e, "C10", "update", famUpdate, b, per, 8, nil, nil)
+		if err := runFamilies(e, "C10", "update", famUpdate, b, per, 8, nil, nil); err != nil {
+			return err
+		}
+		return runFamilies(e, "C10", "update-nillable-pointer", famUpdNillablePtr, 1, 4, 10, nil, nillableOracle(e))
 	}
 	campaigns["C05"] = func(e *env) error {
 		e.rep.Rule = "cases = (converter, method, source): struct pairs whose target fields are fed by goverter:map (renamed field, dotted paths through values and pointers incl. two pointer levels, `.` for the whole source), autoMap, matchIgnoreCase with exact-match preference, ignore and ignoreMissing, on a method that is also reached from sibling methods through slices and pointers (settings must neither leak nor be bypassed); occasionally settings naming fields that do not exist; executed on values with distinct leaves and nil at every pointer of a path; compared with Gv.Gen + Gv.Eval. non-trivial = every call or diagnostic; distinct = (converter, method, source)"
@@ -88,5 +93,61 @@ func init() {
 			b, per = 10*e.scale, 50
 		}
 		return runFamilies(e, "C08", "enum", famEnum, b, per, 8, func(c *k2Call) string { return "" }, nil)
+	}
+}
+
+// famUpdNillablePtr: update methods under update:ignoreZeroValueField[:nillable] whose pointer field is converted through a
+// GENERATED METHOD (pointer to a named struct) next to one converted inline (C10: a nil source pointer must leave the target
+// field unchanged either way).
+func famUpdNillablePtr(r *rng.R, id int) *famOut {
+	p := fmt.Sprintf("Z%d", id)
+	f := &famOut{}
+	f.Types = fmt.Sprintf("type %[1]sNest struct{ A int }\ntype %[1]sNestT struct{ A int }\ntype %[1]sIn struct {\n\tPN *%[1]sNest\n\tPI *int\n\tV  int\n}\ntype %[1]sOut struct {\n\tPN *%[1]sNestT\n\tPI *int\n\tV  int\n}\n", p)
+	flag := []string{"update:ignoreZeroValueField", "update:ignoreZeroValueField:nillable"}[id%2]
+	f.add(p+"C", fmt.Sprintf("// goverter:converter\n// goverter:%s\ntype %[2]sC interface {\n\t// goverter:update target\n\tUp(source %[2]sIn, target *%[2]sOut)\n}\n\n", flag, p))
+	return f
+}
+
+// fieldOf finds `(f "name" v)` in a printed struct value (behind a pointer or not).
+func fieldOf(v *sx.Node, name string) *sx.Node {
+	if v == nil {
+		return nil
+	}
+	if v.Head() == "ptr" && len(v.L) == 3 {
+		v = v.L[2]
+	}
+	if v.Head() == "ok" && len(v.L) == 2 {
+		return fieldOf(v.L[1], name)
+	}
+	for _, x := range v.Args() {
+		if x.Head() == "f" && len(x.L) == 3 && x.L[1].S == name {
+			return x.L[2]
+		}
+	}
+	return nil
+}
+
+// nillableOracle judges a call of famUpdNillablePtr by the property itself: a nil source pointer leaves the target field as it was.
+func nillableOracle(e *env) func(c *k2Call) {
+	return func(c *k2Call) {
+		if len(c.Values) != 2 {
+			return
+		}
+		src, err1 := sx.Parse(c.Values[0])
+		pre, err2 := sx.Parse(c.Values[1])
+		post, err3 := sx.Parse(c.Impl)
+		if err1 != nil || err2 != nil || err3 != nil {
+			return
+		}
+		for _, fld := range []string{"PN", "PI"} {
+			s, before, after := fieldOf(src, fld), fieldOf(pre, fld), fieldOf(post, fld)
+			if s == nil || before == nil || after == nil {
+				continue
+			}
+			if s.String() == "nil" && before.String() != "nil" && after.String() == "nil" {
+				e.rep.Violation("D30-nillable-pointer-via-generated-method", map[string]any{"call": c, "field": fld,
+					"broken": "C10: update:ignoreZeroValueField(:nillable) is in effect, the source field is a nil pointer, and the target field was overwritten with nil (model and implementation agree with each other)"}, false)
+			}
+		}
 	}
 }
